@@ -614,6 +614,7 @@ func (v *Verifier) runPartition(pkg *ssa.Package, fn *ssa.Function, c *Contract,
 	v.noMerge = c.Options["nomerge"] != ""
 	v.opaqueCalls = c.Options["opaque-calls"] != ""
 	v.structSlices = c.Options["struct-slices"] != ""
+	v.nullableResults = c.Options["nullable-results"] != ""
 	v.opaqueWrites = map[string][]int{}
 	for _, n := range strings.Fields(strings.ReplaceAll(c.Options["opaque-writes"], ",", " ")) {
 		if i := strings.LastIndex(n, ":"); i > 0 {
